@@ -4,5 +4,5 @@ root=$1; id=$2; ab=$3; shift 3
 d=/tmp/probe-$$; rm -rf $d; mkdir -p $d
 git -C /repo archive HEAD 20 30 31 40 go.mod go.sum | tar -x -C $d
 (cd $d && patch -p1 -s < $root/$id/$ab/patch.diff) || { echo "patch failed"; rm -rf $d; exit 2; }
-for p in "$@"; do echo "$id-$ab on $p: $(/verif/bin/cvsscheck -prop $p -repo $d -no-evidence 2>&1 | grep -v '^VIOLATION' | tail -2 | cut -c1-260 | tr '\n' ' ')"; done
+for p in "$@"; do echo "$id-$ab on $p: $(${BIN:-/verif/bin/cvsscheck} -prop $p -repo $d -no-evidence 2>&1 | grep -v '^VIOLATION' | tail -2 | cut -c1-260 | tr '\n' ' ')"; done
 rm -rf $d
